@@ -422,7 +422,7 @@ pub fn gen(tier: Tier, r: &mut Rng, emit: &mut dyn FnMut(String)) {
     }
 
     // --- valid JSON, mutations, token soup, arbitrary bytes
-    let n = if quick { 250 } else { 30_000 };
+    let n = if quick { 250 } else { 10_000 };
     for i in 0..n {
         let nodes = match i % 5 {
             0 => 3,
